@@ -54,3 +54,101 @@ Theorem C15_vote_second : forall t a idx v k,
   add_vote t a idx v = AVErr.
 Proof. exact add_vote_second. Qed.
 Print Assumptions C15_vote_second.
+
+(* the shape of any accepted vote: nothing changes, or the slot the reporter is the recorded
+   witness of is set to the reported code (and the reporter had not voted) *)
+Theorem C15_vote_shape : forall t a idx v t',
+  add_vote t a idx v = AVOk t' ->
+  t' = t \/
+  exists k, idx = Z.of_nat k /\ t_wit t !! k = Some a /\ voted t a = false /\
+            t' = set_votes t (<[k := vote_code v]> (t_votes t)).
+Proof. exact add_vote_ok. Qed.
+Theorem C15_vote_slot_was_empty : forall t a k,
+  NoDup (t_wit t) -> t_wit t !! k = Some a -> voted t a = false -> slot t k <= 0.
+Proof. exact add_vote_slot_empty. Qed.
+
+(* (4) exactly-once: over every history of operations from any senders in any order, starting
+   from empty stores and any balances, no tracker name is minted twice *)
+Theorem C15_mint_at_most_once : forall E ops b,
+  NoDup (minted_names (log (run E (init b) ops))).
+Proof. exact mint_at_most_once. Qed.
+Print Assumptions C15_mint_at_most_once.
+
+(* (5) the same external transaction name never backs two trackers: in every reachable state a
+   name is in at most one of the three stores *)
+Theorem C15_unique_name : forall E ops b, stores_disjoint (run E (init b) ops).
+Proof. exact unique_name. Qed.
+Print Assumptions C15_unique_name.
+
+(* (6) "to the account that submitted the lock".  The full statement is false of the faithful
+   model (and of the code: known finding C15.mint_to_report_locker): the beneficiary is the Locker
+   field of the report that crosses the threshold.  Outside the trigger it holds. *)
+Theorem C15_beneficiary_partial : forall E s o s' r n a z,
+  step E s o = (s', r) -> log s' = Minted n a z :: log s -> trig_locker s o = false ->
+  exists t, ongoing s !! n = Some t /\ a = t_owner t.
+Proof. exact beneficiary_partial. Qed.
+Print Assumptions C15_beneficiary_partial.
+
+Definition E0 : env :=
+  {| e_wits := [20; 21; 22; 23]%N; e_cap := 1000; e_supply := 99%N;
+     e_tx := fun _ => {| x_name := 1%N; x_lock := Some 100; x_redeem := Some 30 |} |}.
+Definition two_honest : list op := [Lock 1%N 1%N; Report 1%N 1%N 20%N 0 true; Report 1%N 1%N 21%N 1 true].
+
+(* four recorded witnesses, threshold 3; two honest yes-votes; the third witness names account 2 *)
+Theorem C15_refuted_beneficiary : exists E s o n a z t,
+  (exists ops, s = run E (init ∅) ops) /\ trig_locker s o = true /\
+  log (step E s o).1 = Minted n a z :: log s /\ ongoing s !! n = Some t /\ a <> t_owner t.
+Proof.
+  exists E0, (run E0 (init ∅) two_honest), (Report 1%N 2%N 22%N 2 true), 1%N, 2%N, 100,
+    {| t_type := 1; t_state := 0; t_name := 1%N; t_tx := 1%N; t_wit := [20; 21; 22; 23]%N; t_owner := 1%N;
+       t_votes := [1; 1; 0; 0] |}.
+  split; [by exists two_honest|]. vm_compute. repeat split; try reflexivity. discriminate.
+Qed.
+
+(* (7) redeem: debit and tracker creation are one successful step, and the name was in no store *)
+Theorem C15_redeem_debits_first : forall E s a x s',
+  do_redeem E s a x = (s', Ok) ->
+  exists amt, x_redeem (e_tx E x) = Some amt /\
+    let n := x_name (e_tx E x) in
+    ongoing s !! n = None /\ passed s !! n = None /\ failed s !! n = None /\
+    ongoing s' !! n = Some (new_tracker T_REDEEM a x n (e_wits E)) /\
+    amt <= balof (bal s) a /\
+    bal s' = credit (credit (bal s) a (- amt)) (e_supply E) (- amt) /\
+    log s' = Debited n a amt :: log s.
+Proof. exact redeem_debits. Qed.
+Print Assumptions C15_redeem_debits_first.
+
+(* (8) supply counter = wrapped tokens in circulation ([tot] counts the supply address too, hence
+   the factor 2).  Forced hypothesis: no step of the history has the supply address as sender,
+   named Locker, tracker owner or transfer end.  Without it the statement is false of the model
+   and of the code: known finding C15.supply_address_transacts. *)
+Theorem C15_supply_partial : forall E ops s,
+  supply_ok E s -> supply_guarded E s ops -> supply_ok E (run E s ops).
+Proof. exact supply_run. Qed.
+Print Assumptions C15_supply_partial.
+
+Definition b0 : gmap acct Z := {[ 1%N := 50; 99%N := 50 ]}.
+Theorem C15_refuted_supply : exists E s o,
+  supply_ok E s /\ trig_supply E s o = true /\ ~ supply_ok E (step E s o).1.
+Proof.
+  exists E0, (init b0), (Transfer 1%N 99%N 10). split; [by vm_compute|]. split; [by vm_compute|].
+  intros H. vm_compute in H. discriminate.
+Qed.
+
+(* non-vacuity: an honest history satisfies every hypothesis above, mints exactly once, credits
+   the owner and keeps the counter equal to the circulation; a failing redeem is refunded once *)
+Definition honest : list op := two_honest ++ [Report 1%N 1%N 22%N 2 true; EndBlock {| nl_witness := false; nl_addr := 0%N; nl_bjob := [] |} [1%N]].
+Example C15_honest_history :
+  let s := run E0 (init ∅) honest in
+  supply_guarded E0 (init ∅) honest /\ minted_names (log s) = [1%N] /\ balof (bal s) 1%N = 100 /\
+  balof (bal s) 99%N = 100 /\ has (passed s) 1%N = true /\ has (ongoing s) 1%N = false.
+Proof. vm_compute. repeat split; reflexivity. Qed.
+
+Definition redeem_fails : list op :=
+  [Redeem 1%N 1%N; Report 1%N 1%N 20%N 0 false; Report 1%N 1%N 20%N 0 false; Report 1%N 1%N 40%N 1 false;
+   Report 1%N 1%N 21%N 1 false; Report 1%N 1%N 22%N 2 false; Report 1%N 1%N 23%N 3 false].
+Example C15_refund_history :
+  let s := run E0 (init b0) redeem_fails in
+  supply_guarded E0 (init b0) redeem_fails /\ refunded_names (log s) = [1%N] /\
+  balof (bal s) 1%N = 50 /\ balof (bal s) 99%N = 50.
+Proof. vm_compute. repeat split; reflexivity. Qed.
